@@ -532,4 +532,254 @@ Section Conf.
       + apply seg_list. intros x Hx. destruct ds; [|contradiction]. destruct Hx as [<-|[]]. split; [reflexivity|].
         eapply pk with (a := (a_extra, rExtra)); [left; reflexivity | reflexivity |]. apply conf_ds_extra. assumption.
   Qed.
+
+  (* ---------------------------------------------------------------- scene graph *)
+  Lemma conf_url : forall t u, ref_ok lex u = true -> C rInstanceURL (emit_url t u) = true.
+  Proof. intros. eapply conf_ones; [reflexivity | attrs | reflexivity | exact I]. Qed.
+
+  Lemma conf_transform : forall t, wf_transform lex t = true ->
+    has_tag [a_lookat; a_matrix; a_rotate; a_scale; a_translate] (emit_transform t) = true /\
+    picked G C [(a_lookat, rFloats9); (a_matrix, rFloats16); (a_rotate, rFloats4); (a_scale, rFloats3); (a_translate, rFloats3)]
+           (emit_transform t) = true.
+  Proof.
+    intros [k l] H. unfold wf_transform in H. cbn in H. unfold emit_transform. cbn [fst snd].
+    destruct k; (split; [reflexivity|]).
+    - eapply pk with (a := (a_lookat, rFloats9)); [simpl; tauto | reflexivity | eapply conf_text; [reflexivity | exact H]].
+    - eapply pk with (a := (a_matrix, rFloats16)); [simpl; tauto | reflexivity | eapply conf_text; [reflexivity | exact H]].
+    - eapply pk with (a := (a_rotate, rFloats4)); [simpl; tauto | reflexivity | eapply conf_text; [reflexivity | exact H]].
+    - eapply pk with (a := (a_scale, rFloats3)); [simpl; tauto | reflexivity | eapply conf_text; [reflexivity | exact H]].
+    - eapply pk with (a := (a_translate, rFloats3)); [simpl; tauto | reflexivity | eapply conf_text; [reflexivity | exact H]].
+  Qed.
+
+  Lemma conf_matnode : forall m, wf_matnode lex m = true -> C rInstMat (emit_matnode m) = true.
+  Proof.
+    intros [sym tgt ins] H. unfold wf_matnode in H. cbn in H. splitb H.
+    eapply conf_segs with (segs := [([a_bind_vertex_input], map emit_bvi ins)]); shape.
+    - attrs.
+    - segs. apply seg_map. intros [bs bi bset] Hb. split; [reflexivity|].
+      eapply pk with (a := (a_bind_vertex_input, rBindVI)); [left; reflexivity | reflexivity |].
+      match goal with Hf : forallb (wf_bvi lex) ins = true |- _ => rewrite forallb_forall in Hf; specialize (Hf _ Hb) end.
+      unfold wf_bvi in *. cbn [b_sem b_isem b_set] in *. unfold emit_bvi. cbn [b_sem b_isem b_set].
+      match goal with Hf : _ && _ = true |- _ => splitb Hf end.
+      destruct bset as [sv|]; cbn [opt_at app oall] in *; (eapply conf_ones; [reflexivity | attrs | reflexivity | exact I]).
+  Qed.
+
+  Section SnodeInd.
+    Variable P : snode -> Prop.
+    Hypothesis Hn : forall id name ts kids, Forall P kids -> P (SNode id name ts kids).
+    Hypothesis Hc : forall u, P (SCamera u).
+    Hypothesis Hg : forall u m, P (SGeometry u m).
+    Hypothesis Hl : forall u, P (SLight u).
+    Hypothesis Hi : forall u, P (SInst u).
+    Hypothesis He : P SExtra.
+    Fixpoint snode_ind' (n : snode) : P n :=
+      match n with
+      | SNode id name ts kids =>
+          Hn id name ts kids ((fix go (l : list snode) : Forall P l :=
+                                 match l with [] => Forall_nil P | c :: r => Forall_cons c (snode_ind' c) (go r) end) kids)
+      | SCamera u => Hc u | SGeometry u m => Hg u m | SLight u => Hl u | SInst u => Hi u | SExtra => He
+      end.
+  End SnodeInd.
+
+  Definition kid_alt (n : snode) : atom * N :=
+    match n with
+    | SCamera _ => (a_instance_camera, rInstanceURL) | SGeometry _ _ => (a_instance_geometry, rInstGeom)
+    | SLight _ => (a_instance_light, rInstanceURL) | SInst _ => (a_instance_node, rInstanceURL)
+    | SNode _ _ _ _ => (a_node, rNode) | SExtra => (a_extra, rExtra)
+    end.
+  Definition kid_fact (n : snode) : Prop :=
+    tag_is G (fst (kid_alt n)) (emit_snode n) = true /\ C (snd (kid_alt n)) (emit_snode n) = true.
+
+  Definition F (i : nat) (l : list snode) : list snode := filter (fun x => Nat.eqb (rank x) i) l.
+
+  Lemma sorted_tail : forall a l, sortedb (a :: l) = true -> sortedb l = true.
+  Proof. intros a [|b l] H; auto. simpl in H. apply andb_true_iff in H as [_ H]. exact H. Qed.
+
+  Lemma sorted_head_min : forall l a, sortedb (a :: l) = true -> forall x, In x l -> rank a <= rank x.
+  Proof.
+    induction l as [|b l IH]; intros a H x Hx; [contradiction|].
+    simpl in H. apply andb_true_iff in H as [H1 H2]. apply Nat.leb_le in H1.
+    destruct Hx as [->|Hx]; auto. specialize (IH b H2 x Hx). lia.
+  Qed.
+
+  Lemma filter_nil : forall (f : snode -> bool) l, (forall x, In x l -> f x = false) -> filter f l = [].
+  Proof. induction l as [|a l IH]; simpl; intros H; auto. rewrite (H a (or_introl eq_refl)). apply IH. auto. Qed.
+
+  Lemma F_nil : forall i r l, (forall x, In x l -> r <= rank x) -> i < r -> F i l = [].
+  Proof.
+    intros i r l H Hi. apply filter_nil. intros x Hx. specialize (H x Hx). apply Nat.eqb_neq. lia.
+  Qed.
+
+  Lemma sorted_split6 : forall l, sortedb l = true -> l = F 0 l ++ F 1 l ++ F 2 l ++ F 3 l ++ F 4 l ++ F 5 l.
+  Proof.
+    induction l as [|a l IH]; intros Hs; [reflexivity|].
+    pose proof (sorted_head_min l a Hs) as Hmin. specialize (IH (sorted_tail _ _ Hs)).
+    destruct a; unfold F at 1 2 3 4 5 6; cbn [filter rank Nat.eqb]; fold (F 0 l) (F 1 l) (F 2 l) (F 3 l) (F 4 l) (F 5 l);
+      cbn [rank] in Hmin;
+      rewrite ?(F_nil 0 _ l Hmin), ?(F_nil 1 _ l Hmin), ?(F_nil 2 _ l Hmin), ?(F_nil 3 _ l Hmin), ?(F_nil 4 _ l Hmin) by lia;
+      cbn [app]; f_equal;
+      rewrite IH at 1;
+      rewrite ?(F_nil 0 _ l Hmin), ?(F_nil 1 _ l Hmin), ?(F_nil 2 _ l Hmin), ?(F_nil 3 _ l Hmin), ?(F_nil 4 _ l Hmin) by lia;
+      reflexivity.
+  Qed.
+
+  Lemma all_wf : forall kids,
+    (fix all (l : list snode) : bool := match l with [] => true | c :: r => wf_snode lex c && all r end) kids = true ->
+    forall x, In x kids -> wf_snode lex x = true.
+  Proof.
+    induction kids as [|c r IH]; intros H x Hx; [contradiction|].
+    apply andb_true_iff in H as [H1 H2]. destruct Hx as [->|Hx]; auto.
+  Qed.
+
+  Ltac rank_seg i Hkids HP :=
+    apply seg_map; intros x Hx; apply filter_In in Hx as [Hin Hr];
+    let Hf := fresh "Hf" in
+    pose proof (HP x Hin (Hkids x Hin)) as Hf; destruct Hf as [Hf1 Hf2];
+    destruct x; cbn [rank] in Hr; try discriminate Hr;
+    (split; [reflexivity |
+             match goal with |- picked _ _ _ (emit_snode ?n) = true =>
+               eapply pk with (a := kid_alt n); [left; reflexivity | exact Hf1 | exact Hf2] end]).
+
+  Lemma conf_snode : wf_lex lex = true -> forall n, wf_snode lex n = true -> kid_fact n.
+  Proof.
+    intros HL. pose proof HL as HL'. unfold wf_lex in HL'. splitb HL'.
+    apply (snode_ind' (fun n => wf_snode lex n = true -> kid_fact n)).
+    - intros id name ts kids IH H. cbn [wf_snode] in H. apply andb_true_iff in H as [H Hall].
+      splitb H. pose proof (all_wf kids Hall) as Hkids. rewrite Forall_forall in IH.
+      assert (Hs : sortedb kids = true) by assumption.
+      split; [reflexivity|]. cbn [kid_alt snd emit_snode].
+      eapply conf_segs with (segs := [([a_lookat; a_matrix; a_rotate; a_scale; a_translate], map emit_transform ts);
+                                      ([a_instance_camera], map emit_snode (F 0 kids));
+                                      ([a_instance_geometry], map emit_snode (F 1 kids));
+                                      ([a_instance_light], map emit_snode (F 2 kids));
+                                      ([a_instance_node], map emit_snode (F 3 kids));
+                                      ([a_node], map emit_snode (F 4 kids));
+                                      ([a_extra], map emit_snode (F 5 kids))]); shape.
+      + attrs.
+      + cbn [xkids el]. rewrite (sorted_split6 kids Hs) at 1. rewrite !map_app.
+        unfold flat. cbn [concat map snd]. rewrite app_nil_r. reflexivity.
+      + segs.
+        * apply seg_map. intros t Ht. apply conf_transform.
+          match goal with Hf : forallb (wf_transform lex) ts = true |- _ => rewrite forallb_forall in Hf; auto end.
+        * rank_seg 0 Hkids IH.
+        * rank_seg 1 Hkids IH.
+        * rank_seg 2 Hkids IH.
+        * rank_seg 3 Hkids IH.
+        * rank_seg 4 Hkids IH.
+        * rank_seg 5 Hkids IH.
+    - intros u H. cbn in H. split; [reflexivity | apply conf_url; assumption].
+    - intros u mats H. cbn [wf_snode] in H. splitb H. split; [reflexivity|]. cbn [kid_alt snd emit_snode].
+      destruct mats as [|m ms].
+      + eapply conf_segs with (segs := [([a_bind_material], [])]); shape. attrs.
+      + eapply conf_segs with (segs := [([a_bind_material],
+            [el a_bind_material [] None [el a_technique_common [] None (map emit_matnode (m :: ms))]])]); shape.
+        * attrs.
+        * segs. apply seg_opt_one; [reflexivity|].
+          eapply pk with (a := (a_bind_material, rBindMat)); [left; reflexivity | reflexivity |].
+          eapply conf_ones; [reflexivity | reflexivity | reflexivity |]. cbn [xkids el ones_ok]. split; [|exact I].
+          eapply pk with (a := (a_technique_common, rBindTC)); [left; reflexivity | reflexivity |].
+          match goal with Hf : forallb (wf_matnode lex) _ = true |- _ => rewrite forallb_forall in Hf; rename Hf into Hm end.
+          eapply conf_segs with (segs := [([a_instance_material], [emit_matnode m]); ([a_instance_material], map emit_matnode ms)]); shape.
+          segs.
+          -- apply seg_one; [reflexivity|].
+             eapply pk with (a := (a_instance_material, rInstMat)); [left; reflexivity | reflexivity |].
+             apply conf_matnode. apply Hm. left; reflexivity.
+          -- apply seg_map. intros m' Hm'. split; [reflexivity|].
+             eapply pk with (a := (a_instance_material, rInstMat)); [left; reflexivity | reflexivity |].
+             apply conf_matnode. apply Hm. right; assumption.
+    - intros u H. cbn in H. split; [reflexivity | apply conf_url; assumption].
+    - intros u H. cbn in H. split; [reflexivity | apply conf_url; assumption].
+    - intros _. split; [reflexivity | apply conf_ds_extra; assumption].
+  Qed.
+
+  Lemma conf_node_top : wf_lex lex = true -> forall n, is_node n && wf_snode lex n = true ->
+    has_tag [a_node] (emit_snode n) = true /\ picked G C [(a_node, rNode)] (emit_snode n) = true.
+  Proof.
+    intros HL n H. apply andb_true_iff in H as [Hn Hw]. destruct n; try discriminate.
+    destruct (conf_snode HL _ Hw) as [F1 F2]. split; [reflexivity|].
+    eapply pk with (a := (a_node, rNode)); [left; reflexivity | exact F1 | exact F2].
+  Qed.
+
+  Lemma conf_vscene : wf_lex lex = true -> forall s, wf_vscene lex s = true -> C rVisualScene (emit_vscene s) = true.
+  Proof.
+    intros HL [id n0 ns] H. unfold wf_vscene in H. cbn [sc_id sc_node0 sc_nodes] in H. splitb H.
+    match goal with Hf : forallb _ (n0 :: ns) = true |- _ => rewrite forallb_forall in Hf; rename Hf into Hn end.
+    eapply conf_segs with (segs := [([a_node], [emit_snode n0]); ([a_node], map emit_snode ns)]); shape.
+    - attrs.
+    - segs.
+      + destruct (conf_node_top HL n0 (Hn n0 (or_introl eq_refl))). apply seg_one; assumption.
+      + apply seg_map. intros n Hin. apply (conf_node_top HL). apply Hn. right; assumption.
+  Qed.
+
+  (* a library: present only when it has members *)
+  Lemma conf_lib : forall A (f : A -> xml) tl rl t r l,
+    rule_of rl emit_rules = Some (GRule idname (GKids [one t r; star t r])) ->
+    (forall v, In v l -> has_tag [t] (f v) = true /\ picked G C [(t, r)] (f v) = true) ->
+    forall x, In x (emit_lib tl (map f l)) -> xtag x = tl /\ xns x = tns /\ C rl x = true.
+  Proof.
+    intros A f tl rl t r [|a l] Hr Hf x Hx; [contradiction|]. destruct Hx as [<-|[]].
+    split; [reflexivity | split; [reflexivity|]].
+    eapply conf_segs with (segs := [([t], [f a]); ([t], map f l)]);
+      [exact Hr | reflexivity | reflexivity | unfold flat; cbn [xkids el map concat snd app]; now rewrite app_nil_r | | ].
+    - reflexivity.
+    - segs.
+      + destruct (Hf a (or_introl eq_refl)). apply seg_one; assumption.
+      + apply seg_map. intros v Hv. apply Hf. right; assumption.
+  Qed.
+
+  Definition lib_alts := [(a_library_cameras, rLibCameras); (a_library_effects, rLibEffects);
+                          (a_library_geometries, rLibGeometries); (a_library_images, rLibImages);
+                          (a_library_lights, rLibLights); (a_library_materials, rLibMaterials);
+                          (a_library_nodes, rLibNodes); (a_library_visual_scenes, rLibScenes)].
+  Definition lib_tags := map fst lib_alts.
+
+  Lemma lib_picked : forall tl rl x, In (tl, rl) lib_alts -> xtag x = tl /\ xns x = tns /\ C rl x = true ->
+    has_tag lib_tags x = true /\ picked G C lib_alts x = true.
+  Proof.
+    intros tl rl x Hin [Ht [Hn Hc]]. split.
+    - unfold has_tag. rewrite Ht. apply existsb_exists. exists tl. split; [|apply N.eqb_refl].
+      unfold lib_tags. apply in_map_iff. exists (tl, rl). auto.
+    - eapply pk with (a := (tl, rl)); [exact Hin | | exact Hc].
+      unfold tag_is. cbn [fst]. rewrite Hn, Ht. change (gg_ns G) with tns. now rewrite !N.eqb_refl.
+  Qed.
+
+  Ltac tagpick t r Hc := split; [reflexivity | eapply pk with (a := (t, r)); [left; reflexivity | reflexivity | apply Hc]].
+
+  Theorem emit_conforms_content : forall d, wf_content lex d = true -> conforms emit_grammar lex (emit d) = true.
+  Proof.
+    intros d H. unfold wf_content in H. splitb H.
+    assert (HL : wf_lex lex = true) by assumption.
+    repeat match goal with Hf : forallb _ _ = true |- _ => rewrite forallb_forall in Hf end.
+    rewrite conforms_confh. change (N.eqb (xns (emit d)) (gg_ns G) && N.eqb (xtag (emit d)) (gg_root G)) with true.
+    cbn [andb]. change (gg_rootrule G) with rCOLLADA.
+    eapply conf_segs with (segs := [([a_asset], [emit_asset (d_asset d)]); (lib_tags, emit_libs d);
+                                    ([a_scene], [el a_scene [] None (opt_el (emit_url a_instance_visual_scene) (d_scene d))])]); shape.
+    segs.
+      + apply seg_one; [reflexivity|].
+        eapply pk with (a := (a_asset, rAsset)); [left; reflexivity | reflexivity | apply conf_asset; assumption].
+      + apply seg_list. intros x Hx. unfold emit_libs in Hx.
+        repeat (apply in_app_or in Hx; destruct Hx as [Hx|Hx]).
+        * eapply lib_picked with (rl := rLibCameras); [|eapply conf_lib with (rl := rLibCameras) (t := a_camera) (r := rCamera); [reflexivity | | exact Hx]]; [simpl; tauto|].
+          intros v Hv. tagpick a_camera rCamera conf_camera. auto.
+        * eapply lib_picked with (rl := rLibEffects); [|eapply conf_lib with (rl := rLibEffects) (t := a_effect) (r := rEffect); [reflexivity | | exact Hx]]; [simpl; tauto|].
+          intros v Hv. tagpick a_effect rEffect conf_effect; auto.
+        * eapply lib_picked with (rl := rLibGeometries); [|eapply conf_lib with (rl := rLibGeometries) (t := a_geometry) (r := rGeometry); [reflexivity | | exact Hx]]; [simpl; tauto|].
+          intros v Hv. tagpick a_geometry rGeometry conf_geometry; auto.
+        * eapply lib_picked with (rl := rLibImages); [|eapply conf_lib with (rl := rLibImages) (t := a_image) (r := rImage); [reflexivity | | exact Hx]]; [simpl; tauto|].
+          intros v Hv. tagpick a_image rImage conf_image. auto.
+        * eapply lib_picked with (rl := rLibLights); [|eapply conf_lib with (rl := rLibLights) (t := a_light) (r := rLight); [reflexivity | | exact Hx]]; [simpl; tauto|].
+          intros v Hv. tagpick a_light rLight conf_light. auto.
+        * eapply lib_picked with (rl := rLibMaterials); [|eapply conf_lib with (rl := rLibMaterials) (t := a_material) (r := rMaterial); [reflexivity | | exact Hx]]; [simpl; tauto|].
+          intros v Hv. tagpick a_material rMaterial conf_material. auto.
+        * eapply lib_picked with (rl := rLibNodes); [|eapply conf_lib with (rl := rLibNodes) (t := a_node) (r := rNode); [reflexivity | | exact Hx]]; [simpl; tauto|].
+          intros v Hv. apply (conf_node_top HL). auto.
+        * eapply lib_picked with (rl := rLibScenes); [|eapply conf_lib with (rl := rLibScenes) (t := a_visual_scene) (r := rVisualScene); [reflexivity | | exact Hx]]; [simpl; tauto|].
+          intros v Hv. tagpick a_visual_scene rVisualScene (conf_vscene HL). auto.
+      + apply seg_opt_one; [reflexivity|].
+        eapply pk with (a := (a_scene, rScene)); [left; reflexivity | reflexivity |].
+        eapply conf_segs with (segs := [([a_instance_visual_scene], opt_el (emit_url a_instance_visual_scene) (d_scene d))]); shape.
+        segs. apply seg_opt. intros u Hu. split; [reflexivity|].
+        eapply pk with (a := (a_instance_visual_scene, rInstanceURL)); [left; reflexivity | reflexivity |].
+        apply conf_url. match goal with Hs : oall (ref_ok lex) (d_scene d) = true |- _ => rewrite Hu in Hs; exact Hs end.
+  Qed.
 End Conf.
